@@ -317,10 +317,20 @@ class AccessControlList(SimComponent):
         # 4: destination ip address (str castable to IPV4Address (e.g. '10.10.1.2'))
         # 5: destination port (str name of a Port (e.g. "HTTP"))
         # 6: position (int)
+        def _position_in_bounds(position: Any) -> bool:
+            return 0 <= int(position) < self.max_acl_rules - 1
+
+        def _out_of_bounds(position: Any) -> RequestResponse:
+            return RequestResponse(
+                status="failure", data={"reason": f"ACL position {position} is out of bounds for {self.name}"}
+            )
+
         rm.add_request(
             "add_rule",
             RequestType(
-                func=lambda request, context: RequestResponse.from_bool(
+                func=lambda request, context: _out_of_bounds(request[8])
+                if not _position_in_bounds(request[8])
+                else RequestResponse.from_bool(
                     self.add_rule(
                         action=ACLAction[request[0]],
                         protocol=None if request[1] == "ALL" else request[1],
@@ -338,7 +348,11 @@ class AccessControlList(SimComponent):
 
         rm.add_request(
             "remove_rule",
-            RequestType(func=lambda request, context: RequestResponse.from_bool(self.remove_rule(int(request[0])))),
+            RequestType(
+                func=lambda request, context: _out_of_bounds(request[0])
+                if not _position_in_bounds(request[0])
+                else RequestResponse.from_bool(self.remove_rule(int(request[0])))
+            ),
         )
         return rm
 
@@ -429,7 +443,7 @@ class AccessControlList(SimComponent):
         :param int position: The position in the ACL list to insert this rule. Defaults is position 0 right at the top.
         :raises ValueError: If the position is out of bounds.
         """
-        if 0 <= position < self.max_acl_rules:
+        if 0 <= position < self.max_acl_rules - 1:
             if self._acl[position]:
                 self.sys_log.info(f"Overwriting ACL rule at position {position}")
             self._acl[position] = ACLRule(
